@@ -28,6 +28,7 @@ from sa import asdl
 from sa import core
 from sa import effects
 from sa import facts
+from sa import formula
 from sa import pat
 from sa import pycfg
 from sa import rules_dup
@@ -219,6 +220,11 @@ def check(model, rep, tier):
            'Undefined)', floor=2)
   rep.rule('DUP-EVAL', 'a user expression is embedded in generated code at most '
            'once (template multiplicity; linear use in handlers)', floor=12)
+
+  # ---------------------------------------------------------------- AUG-INPLACE
+  rep.rule('AUG-INPLACE', 'the run-time fallback of an augmented item update is the '
+           'augmented assignment itself (in-place for mutable elements)', floor=5)
+  _aug_inplace(model, rep)
 
   # ---------------------------------------------------------------- EFFECT
   specf = {n.name: n for n in ast.parse(SPEC).body}
@@ -797,6 +803,50 @@ def check(model, rep, tier):
   rep.depends('C17', ['TREE-NONEMPTY'],
               'a generated module with an empty block does not compile: the '
               'function does not convert at all')
+
+
+def _aug_inplace(model, rep):
+  """`x[i] += v` under LISTS becomes ag__.update_item_with_op(x, i, v, '<op>'):
+  for every operator the converter emits, the Python fallback must perform the
+  same *augmented* assignment on target[i] (`x[i] = x[i] + v` rebinds the element
+  and loses the in-place update of a list / user object that has other
+  references)."""
+  conv = model.func('malt/converters/slices.py', 'SliceTransformer._process_single_update')
+  emitted = set()
+  for c in ast.walk(conv.node):
+    if isinstance(c, ast.Call) and core.dotted(c.func) == 'isinstance' and len(c.args) == 2 \
+        and isinstance(c.args[1], ast.Tuple) and all(
+            (core.dotted(e) or '').startswith('ast.') for e in c.args[1].elts) and \
+        {core.dotted(e).split('.')[1] for e in c.args[1].elts} <= {
+            'Add', 'Sub', 'Mult', 'Div', 'Pow', 'Mod', 'FloorDiv', 'MatMult', 'BitOr',
+            'BitAnd', 'BitXor', 'LShift', 'RShift'}:
+      emitted |= {core.dotted(e).split('.')[1] for e in c.args[1].elts}
+  if not emitted:
+    raise core.AnalysisError('_process_single_update: emitted operator kinds not found')
+  fb = model.func('malt/operators/slices.py', '_py_update_item_with_op')
+  ps = fb.params(skip_self=False)
+  tgt = '%s[%s]' % (ps[0], ps[1])
+  handled = {}
+  plain = []
+  for st in ast.walk(fb.node):
+    if isinstance(st, ast.Assign) and any(core.norm(t) == tgt for t in st.targets):
+      plain.append(core.norm(st)[:70])
+    if isinstance(st, ast.AugAssign) and core.norm(st.target) == tgt and \
+        core.norm(st.value) == ps[2]:
+      for pol, t in formula.path_condition(fb.node, st):
+        if pol == 'T' and isinstance(t, ast.Compare) and len(t.ops) == 1 and isinstance(
+            t.ops[0], ast.Eq) and core.norm(t.left) == ps[3] and isinstance(
+                t.comparators[0], ast.Constant):
+          handled[t.comparators[0].value] = type(st.op).__name__
+  for kind in sorted(emitted):
+    rep.check(handled.get(kind.lower()) == kind and not plain, 'AUG-INPLACE',
+              '%s:%s' % (fb.site, kind.lower()),
+              'the fallback for the emitted operator %r must be the augmented '
+              'assignment `target[i] %s= x`' % (kind.lower(), {
+                  'Add': '+', 'Sub': '-', 'Mult': '*', 'Div': '/', 'Pow': '**'}.get(kind, '?')),
+              {'handled': handled, 'plain_assignments': plain}, line=fb.node.lineno,
+              witness='rows[i] += [x] where rows[i] is also reachable through '
+              'another reference (Feature.LISTS)')
 
 
 def _namedtuple_fields(cls):
